@@ -143,7 +143,7 @@ pub fn base_yaml(bits: u32, servers: u8) -> String {
     if on(F_PATHS) {
         // One path that no program has and one that collides with a program path.
         s.push_str(
-            "paths:\n  /base/only/{id}:\n    parameters:\n    - name: id\n      in: path\n      required: true\n      schema:\n        type: string\n    get:\n      operationId: baseOp\n      responses:\n        '200':\n          description: ok\n  /objs:\n    delete:\n      operationId: baseDelete\n      responses:\n        '204':\n          description: gone\n",
+            "paths:\n  x-base-route-table:\n    hidden:\n    - /internal\n  /base/only/{id}:\n    parameters:\n    - name: id\n      in: path\n      required: true\n      schema:\n        type: string\n    get:\n      operationId: baseOp\n      responses:\n        '200':\n          description: ok\n  /objs:\n    delete:\n      operationId: baseDelete\n      responses:\n        '204':\n          description: gone\n",
         );
     } else {
         s.push_str("paths: {}\n");
@@ -190,7 +190,7 @@ pub struct Prog {
 pub const PROGRAMS: [Prog; 6] = [
     Prog {
         name: "refs",
-        text: "let @obj = { 'id! int, 'name str };\nlet @list = [@obj];\nres /objs on get -> <@list>;\nres /objs/{ 'id int } on get -> <@obj>, put : <@obj> -> <@obj>;\n",
+        text: "let @obj = { 'id! int, 'name str };\nlet @list = [@obj];\nlet tree = rec x { 'value @obj, 'children [x] };\nres /objs on get -> <@list>;\nres /objs/{ 'id int } on get -> <@obj>, put : <@obj> -> <@obj>;\nres /tree on get -> <tree>;\n",
     },
     Prog {
         name: "empty",
@@ -568,6 +568,33 @@ pub fn merge_cli(dir: &TempDir, base_text: &str, prog: &Compiled) -> Result<(Str
     }
 }
 
+thread_local! {
+    static BASELESS_CLI: std::cell::RefCell<std::collections::HashMap<(std::path::PathBuf, String), Y>> = Default::default();
+}
+
+/// The document `oal-cli -m main.oal -t baseless.yaml` writes in `dir` (once per directory and program).
+fn baseless_cli(dir: &TempDir, prog: &Compiled) -> Result<Y, Bad> {
+    let key = (dir.0.clone(), prog.name.clone());
+    if let Some(y) = BASELESS_CLI.with(|m| m.borrow().get(&key).cloned()) {
+        return Ok(y);
+    }
+    let d = &dir.0;
+    std::fs::write(d.join("main.oal"), &prog.text).expect("write main.oal");
+    let out = Command::new(cli_path())
+        .args(["-m", "main.oal", "-t", "baseless.yaml"])
+        .current_dir(d)
+        .stdin(Stdio::null())
+        .output()
+        .expect("cannot run oal-cli (set OAL_CLI)");
+    if out.status.code() != Some(0) {
+        return Err(bad("the CLI fails on an accepted program", "oal-cli exit", format!("program {} without a base: exit {:?}", prog.name, out.status.code())));
+    }
+    let text = std::fs::read_to_string(d.join("baseless.yaml")).map_err(|e| bad("the CLI exits 0 without a target", "oal-cli target", format!("program {}: {e}", prog.name)))?;
+    let y: Y = serde_yaml::from_str(&text).map_err(|e| bad("the target is not YAML", "oal-cli target", format!("program {}: {e}", prog.name)))?;
+    BASELESS_CLI.with(|m| m.borrow_mut().insert(key, y.clone()));
+    Ok(y)
+}
+
 // ---------------------------------------------------------------------------
 // Cases
 
@@ -601,7 +628,19 @@ fn run_case(
         } else {
             merge_inproc(&typed, p)?
         };
-        check_merge(&side, p, out)?;
+        if mode == "cli" {
+            // Names of implicit components hash the module's location: the base-less document
+            // to compare with is the one the CLI writes for the same file in the same place.
+            let at_place = Compiled {
+                name: p.name.clone(),
+                text: p.text.clone(),
+                spec: p.spec.clone(),
+                baseless: baseless_cli(dir.expect("scratch dir"), p)?,
+            };
+            check_merge(&side, &at_place, out)?;
+        } else {
+            check_merge(&side, p, out)?;
+        }
         n += 1;
         hs.push(hash_of(&text));
     }
@@ -733,7 +772,7 @@ impl Engine for C14 {
     }
     fn rule(&self) -> String {
         format!(
-            "base documents are built from an index: 17 independent optional features ({}) x servers in {{absent, one, two with variables}} = 3*2^17 YAML texts, each a valid OpenAPI 3.0 object (the `paths` feature adds one path no program has and one that collides with a program path; the `schemas` feature adds one schema no program has and one named like a program's `@obj`); every base is merged with each program of a menu of six accepted programs (refs: `@` components and colliding path; empty: no resource at all; plain: no component; rec: implicit hash-* component; paths: several paths, methods and statuses; headers: header and query parameters) through the real Builder::with_base + serde_yaml (in-process), and the sub-lattice spanned by the first k of the ten features that touch what the merge writes (paths, the eight components members, the root extension; the others absent, two servers) through the real `oal-cli -b`. Checked per merge: strip(out) == strip(print(parse(base))) on serde_yaml values, out.paths and out.components.schemas equal those of the same program without a base, no top-level / info.* / components.* key of the raw base text disappears. Every case is non-trivial; distinct = distinct vectors of output texts. states = base documents, transitions = merges checked",
+            "base documents are built from an index: 17 independent optional features ({}) x servers in {{absent, one, two with variables}} = 3*2^17 YAML texts, each a valid OpenAPI 3.0 object (the `paths` feature adds one path no program has, one that collides with a program path and an `x-` extension directly under `paths`; the `schemas` feature adds one schema no program has and one named like a program's `@obj`); every base is merged with each program of a menu of six accepted programs (refs: `@` components, an implicit hash-* component referred to from a resource only, and colliding path; empty: no resource at all; plain: no component; rec: implicit hash-* component; paths: several paths, methods and statuses; headers: header and query parameters) through the real Builder::with_base + serde_yaml (in-process), and the sub-lattice spanned by the first k of the ten features that touch what the merge writes (paths, the eight components members, the root extension; the others absent, two servers) through the real `oal-cli -b`. Checked per merge: strip(out) == strip(print(parse(base))) on serde_yaml values, out.paths and out.components.schemas equal those of the same program without a base, no top-level / info.* / components.* key of the raw base text disappears. Every case is non-trivial; distinct = distinct vectors of output texts. states = base documents, transitions = merges checked",
             FEATURES.join(", ")
         )
     }
